@@ -145,7 +145,8 @@ def evaluate(ctx, case, res):
     inp = rc.case_summary(case)
     dest = case["dest"]
     if res["reply1"].get("runner_died") or res["reply2"].get("runner_died"):
-        ctx.broken.append(f"runner process died on case seed {case['seed']}")
+        why = next((r.get("error") for r in (res["reply1"], res["reply2"]) if r.get("runner_died")), "")
+        ctx.broken.append(f"no answer from the rebuild on case seed {case['seed']}: {why}")
         return
     b, a1, a2 = res["before"], res["after1"], res["after2"]
     for label in b:
@@ -375,7 +376,7 @@ def evaluate_escape(ctx, case, res):
     inp = escape_summary(case)
     rep = res["reply1"]
     if rep.get("runner_died"):
-        ctx.broken.append(f"runner process died on escape case seed {case['seed']}")
+        ctx.broken.append(f"no answer from the rebuild on escape case seed {case['seed']}: {rep.get('error')}")
         return
     b, a = res["before"], res["after1"]
     keys = [k for k in sorted(set(b) | set(a)) if b.get(k) != a.get(k)]
